@@ -13,7 +13,9 @@ import (
 	"sort"
 	"strconv"
 	"strings"
+	"sync"
 	"testing"
+	"time"
 
 	log "github.com/sirupsen/logrus"
 )
@@ -46,7 +48,11 @@ func vfObserveFragment(r *vfRng, b Bundle, mtu int, ctx *vfCtx) string {
 	var frags []Bundle
 	var ferr error
 	outcome := ""
-	func() {
+	// Fragment runs under a (generous, load tolerant) watchdog: a loop that stops advancing (capacity 0)
+	// would otherwise eat all memory.
+	done := make(chan struct{})
+	go func() {
+		defer close(done)
 		defer func() {
 			if p := recover(); p != nil {
 				outcome = "panic"
@@ -54,8 +60,15 @@ func vfObserveFragment(r *vfRng, b Bundle, mtu int, ctx *vfCtx) string {
 		}()
 		frags, ferr = vfCloneBundle(b).Fragment(mtu)
 	}()
+	select {
+	case <-done:
+	case <-time.After(10*time.Second + time.Duration(len(payload))*20*time.Millisecond):
+		outcome = "hang"
+	}
 	res, reasm := "", "na"
 	switch {
+	case outcome == "hang":
+		res = "hang"
 	case outcome == "panic":
 		res = "panic"
 	case ferr != nil:
@@ -128,7 +141,7 @@ func vfReplayFragment(t *testing.T, w *bufio.Writer, path string) {
 		t.Fatal(err)
 	}
 	fs := strings.Fields(rp.MinimalInput)
-	if len(fs) < 17 || fs[0] != "frag" {
+	if len(fs) < 16 || fs[0] != "frag" {
 		t.Fatalf("replay file has no frag line")
 	}
 	mtu, _ := strconv.Atoi(fs[1])
@@ -141,6 +154,14 @@ func vfReplayFragment(t *testing.T, w *bufio.Writer, path string) {
 		t.Fatalf("replay bundle does not parse (lifetime exceeded meanwhile?): %v", err)
 	}
 	fmt.Fprintln(w, vfObserveFragment(&vfRng{s: 1}, b, mtu, nil))
+}
+
+// vfJob produces the observation lines of one bundle (or a small group); jobs run on a worker pool, each
+// with its own generator state, and their lines are written in job order: the output is a pure function
+// of (seed, tier, code under test).
+type vfJob struct {
+	part string
+	run  func(r *vfRng, emit func(string))
 }
 
 func TestVerifC09(t *testing.T) {
@@ -163,16 +184,15 @@ func TestVerifC09(t *testing.T) {
 	seed, _ := strconv.ParseUint(os.Getenv("VERIF_SEED"), 10, 64)
 	thorough := os.Getenv("VERIF_TIER") == "thorough"
 	r := &vfRng{s: seed*2654435761 + 9}
-	emit := func(s string) { fmt.Fprintln(w, s) }
-	count := map[string]int{}
+	var jobs []vfJob
+	add := func(part string, run func(r *vfRng, emit func(string))) { jobs = append(jobs, vfJob{part, run}) }
 
-	sweep := func(b Bundle, lo, hi int, ctx *vfCtx, part string) {
+	sweep := func(r *vfRng, emit func(string), b Bundle, lo, hi int, ctx *vfCtx) {
 		if lo < 0 {
 			lo = 0
 		}
 		for m := lo; m <= hi; m++ {
 			emit(vfObserveFragment(r, b, m, ctx))
-			count[part]++
 		}
 	}
 
@@ -184,23 +204,26 @@ func TestVerifC09(t *testing.T) {
 	specs := vfFixedSpecs()
 	for _, s := range specs {
 		for p := 0; p <= pmax; p++ {
-			b, err := s.build(r.bytes(p))
-			if err != nil {
-				emit("# build error " + err.Error())
-				continue
-			}
-			n, err := vfNumbersOf(b)
-			if err != nil {
-				emit("# numbers error " + err.Error())
-				continue
-			}
-			sweep(b, n.minOverhead-3, n.size+3, nil, "A-exhaustive")
+			s, p := s, p
+			add("A-exhaustive", func(r *vfRng, emit func(string)) {
+				b, err := s.build(r.bytes(p))
+				if err != nil {
+					emit("# build error " + err.Error())
+					return
+				}
+				n, err := vfNumbersOf(b)
+				if err != nil {
+					emit("# numbers error " + err.Error())
+					return
+				}
+				sweep(r, emit, b, n.minOverhead-3, n.size+3, nil)
+			})
 		}
 	}
 
 	// (B) where the payload-length head changes width (chunk capacity around 23/24, 255/256, 65535/65536)
 	widths := []int{22, 23, 24, 25, 254, 255, 256, 257}
-	plens := []int{60, 300, 700}
+	plens := []int{60, 300, 600}
 	nB := 4
 	if thorough {
 		nB = 16
@@ -208,36 +231,38 @@ func TestVerifC09(t *testing.T) {
 		widths = append(widths, 65534, 65535, 65536, 65537)
 	}
 	for i := 0; i < nB; i++ {
-		var s vfSpec
-		if i < 2 {
-			s = specs[[]int{3, 9}[i]]
-		} else {
-			s = vfRandomSpec(r, 1000+i)
-		}
 		for _, p := range plens {
-			b, err := s.build(r.bytes(p))
-			if err != nil {
-				emit("# build error " + err.Error())
-				continue
-			}
-			n, _ := vfNumbersOf(b)
-			ms := map[int]bool{}
-			for _, c := range widths {
-				if c <= p+40 {
-					// capacity of the first / of the other fragments close to c
-					for _, hl := range []int{0, 1, 2, 4} {
-						ms[n.overhead+hl+c] = true
-						ms[n.minOverhead+hl+c] = true
+			i, p := i, p
+			add("B-head-width", func(r *vfRng, emit func(string)) {
+				var s vfSpec
+				if i < 2 {
+					s = specs[[]int{11, 3}[i]] // the tight mix first
+				} else {
+					s = vfRandomSpec(r, 1000+i)
+				}
+				b, err := s.build(r.bytes(p))
+				if err != nil {
+					emit("# build error " + err.Error())
+					return
+				}
+				n, _ := vfNumbersOf(b)
+				ms := map[int]bool{}
+				for _, c := range widths {
+					if c <= p+40 {
+						// capacity of the first / of the other fragments close to c
+						for _, hl := range []int{0, 1, 2, 4} {
+							ms[n.overhead+hl+c] = true
+							ms[n.minOverhead+hl+c] = true
+						}
 					}
 				}
-			}
-			for _, m := range vfSortedInts(ms) {
-				if p > 4096 && m < 600 {
-					continue // keep the number of fragments of the large payloads moderate
+				for _, m := range vfSortedInts(ms) {
+					if p > 4096 && m < 600 {
+						continue // keep the number of fragments of the large payloads moderate
+					}
+					emit(vfObserveFragment(r, b, m, nil))
 				}
-				emit(vfObserveFragment(r, b, m, nil))
-				count["B-head-width"]++
-			}
+			})
 		}
 	}
 
@@ -247,54 +272,58 @@ func TestVerifC09(t *testing.T) {
 		nC = 500
 	}
 	for i := 0; i < nC; i++ {
-		s := vfRandomSpec(r, i)
-		p := []int{0, 1, 2, 23, 24, 25, 64, 100, 255, 256, 257, 1000, 2000}[r.intn(13)]
-		if r.intn(2) == 0 {
-			p = r.intn(400)
-		}
-		b, err := s.build(r.bytes(p))
-		if err != nil {
-			emit("# build error " + err.Error())
-			continue
-		}
-		n, _ := vfNumbersOf(b)
-		ms := map[int]bool{}
-		for d := -3; d <= 4; d++ {
-			ms[n.minOverhead+d] = true
-			ms[n.overhead+d] = true
-			ms[n.size+d] = true
-		}
-		for k := 0; k < 6; k++ {
-			ms[n.minOverhead+r.intn(n.size-n.minOverhead+4)] = true
-		}
-		for _, m := range vfSortedInts(ms) {
-			if m < 0 || (p > 500 && m < n.overhead+8) {
-				continue
+		i := i
+		add("C-random", func(r *vfRng, emit func(string)) {
+			s := vfRandomSpec(r, i)
+			p := []int{0, 1, 2, 23, 24, 25, 64, 100, 255, 256, 257, 1000, 2000}[r.intn(13)]
+			if r.intn(2) == 0 {
+				p = r.intn(400)
 			}
-			emit(vfObserveFragment(r, b, m, nil))
-			count["C-random"]++
-		}
+			b, err := s.build(r.bytes(p))
+			if err != nil {
+				emit("# build error " + err.Error())
+				return
+			}
+			n, _ := vfNumbersOf(b)
+			ms := map[int]bool{}
+			for d := -3; d <= 4; d++ {
+				ms[n.minOverhead+d] = true
+				ms[n.overhead+d] = true
+				ms[n.size+d] = true
+			}
+			for k := 0; k < 6; k++ {
+				ms[n.minOverhead+r.intn(n.size-n.minOverhead+4)] = true
+			}
+			for _, m := range vfSortedInts(ms) {
+				if m < 0 || (p > 500 && m < n.overhead+8) {
+					continue
+				}
+				emit(vfObserveFragment(r, b, m, nil))
+			}
+		})
 	}
 
 	// (D) must-not-fragment bundles (also anonymous ones), fitting and not fitting
 	for i, s := range []vfSpec{specs[0], specs[1], specs[4]} {
-		s.flags |= MustNotFragmented
-		if i == 2 {
-			s.src = "dtn:none"
-			s.rpt = "dtn:none"
-		}
-		for _, p := range []int{0, 10, 200} {
-			b, err := s.build(r.bytes(p))
-			if err != nil {
-				emit("# build error " + err.Error())
-				continue
+		i, s := i, s
+		add("D-must-not-fragment", func(r *vfRng, emit func(string)) {
+			s.flags |= MustNotFragmented
+			if i == 2 {
+				s.src = "dtn:none"
+				s.rpt = "dtn:none"
 			}
-			n, _ := vfNumbersOf(b)
-			for _, m := range []int{n.minOverhead + 5, n.size - 1, n.size, n.size + 1, 1 << 20} {
-				emit(vfObserveFragment(r, b, m, nil))
-				count["D-must-not-fragment"]++
+			for _, p := range []int{0, 10, 200} {
+				b, err := s.build(r.bytes(p))
+				if err != nil {
+					emit("# build error " + err.Error())
+					continue
+				}
+				n, _ := vfNumbersOf(b)
+				for _, m := range []int{n.minOverhead + 5, n.size - 1, n.size, n.size + 1, 1 << 20} {
+					emit(vfObserveFragment(r, b, m, nil))
+				}
 			}
-		}
+		})
 	}
 
 	// (E) second-level fragmentation: fragments of fragments keep absolute offsets and the original total
@@ -303,45 +332,91 @@ func TestVerifC09(t *testing.T) {
 		nE = 24
 	}
 	for i := 0; i < nE; i++ {
-		var s vfSpec
-		if i < len(specs) {
-			s = specs[(i*5+2)%len(specs)]
-		} else {
-			s = vfRandomSpec(r, 5000+i)
-		}
-		p := 20 + r.intn(60)
-		b, err := s.build(r.bytes(p))
-		if err != nil {
-			emit("# build error " + err.Error())
-			continue
-		}
-		n, _ := vfNumbersOf(b)
-		m1 := n.overhead + 6 + r.intn(p/2+1)
-		frags, err := vfCloneBundle(b).Fragment(m1)
-		if err != nil || len(frags) < 2 {
-			continue
-		}
-		bser := vfSer(b)
-		for idx, fr := range frags {
-			if len(vfPayload(fr)) < 2 {
-				continue
+		i := i
+		add("E-refragment", func(r *vfRng, emit func(string)) {
+			var s vfSpec
+			if i < len(specs) {
+				s = specs[(i*5+2)%len(specs)]
+			} else {
+				s = vfRandomSpec(r, 5000+i)
 			}
-			fn, err := vfNumbersOf(fr)
+			p := 40 + r.intn(60)
+			b, err := s.build(r.bytes(p))
 			if err != nil {
-				continue
+				emit("# build error " + err.Error())
+				return
 			}
-			lo, hi := fn.minOverhead-1, fn.size+1
-			if !thorough && hi-lo > 14 {
-				lo = hi - 14
+			n, _ := vfNumbersOf(b)
+			if n.size-n.overhead < 4 {
+				return
 			}
-			sweep(fr, lo, hi, &vfCtx{siblings: frags, idx: idx, origSer: bser}, "E-refragment")
-		}
+			var frags []Bundle
+			for try := 0; try < 8 && len(frags) < 2; try++ {
+				frags, err = vfCloneBundle(b).Fragment(n.overhead + 2 + r.intn(n.size-n.overhead-2))
+				if err != nil {
+					frags = nil
+				}
+			}
+			if len(frags) < 2 {
+				return
+			}
+			bser := vfSer(b)
+			for idx, fr := range frags {
+				if len(vfPayload(fr)) < 2 {
+					continue
+				}
+				fn, err := vfNumbersOf(fr)
+				if err != nil {
+					continue
+				}
+				lo, hi := fn.minOverhead-1, fn.size+1
+				if !thorough && hi-lo > 14 {
+					lo = hi - 14
+				}
+				sweep(r, emit, fr, lo, hi, &vfCtx{siblings: frags, idx: idx, origSer: bser})
+			}
+		})
 	}
 
+	// run the jobs
+	results := make([][]string, len(jobs))
+	var wg sync.WaitGroup
+	var hangMu sync.Mutex
+	sem := make(chan struct{}, 8)
+	for ji := range jobs {
+		wg.Add(1)
+		sem <- struct{}{}
+		go func(ji int) {
+			defer wg.Done()
+			defer func() { <-sem }()
+			jr := &vfRng{s: r.s + uint64(ji)*0x9e3779b97f4a7c15}
+			jobs[ji].run(jr, func(line string) {
+				results[ji] = append(results[ji], line)
+				if fs := strings.Fields(line); len(fs) > 14 && fs[0] == "frag" && fs[13] == "hang" {
+					// the runaway goroutine cannot be stopped: report this line and leave
+					hangMu.Lock()
+					fmt.Fprintln(w, line)
+					w.Flush()
+					f.Close()
+					os.Exit(3)
+				}
+			})
+		}(ji)
+	}
+	wg.Wait()
+	count := map[string]int{}
+	for ji, ls := range results {
+		for _, l := range ls {
+			fmt.Fprintln(w, l)
+			if !strings.HasPrefix(l, "#") {
+				count[jobs[ji].part]++
+			}
+		}
+	}
 	var keys []string
 	for k, v := range count {
 		keys = append(keys, fmt.Sprintf("%s=%d", k, v))
 	}
 	sort.Strings(keys)
-	emit("# C09 generator: " + strings.Join(keys, " "))
+	fmt.Fprintln(w, "# C09 generator: "+strings.Join(keys, " "))
 }
